@@ -54,7 +54,7 @@ SCENARIOS = [
     {"name": "kept", "pre": ["construct:1:C3:1", "retain:1:2"], "threads": [["take:1", "retain:1:3", "release:1"], ["take:2", "release:2"]]},
     # concurrent first use of the classes: parsec_class_initialize under its lock (explored on the code only)
     {"name": "cold", "cold": True, "pre": [],
-     "threads": [["new:1:C3:1", "release:1"], ["new:2:C4:2", "release:2"], ["new:3:C3:3", "release:3"]]},
+     "threads": [["new:1:C3:1", "release:1", "new:4:C2:4", "release:4"], ["new:2:C4:2", "release:2", "new:3:C3:3", "release:3"]]},
 ]
 EXPLORE = ("depth1", "share3", "handoff", "kept", "cold")
 STRESS = ("share3", "two", "newthr")
@@ -206,6 +206,18 @@ def mc(d, sc, mut="none", tag=""):
                           properties=("Refines",))
 
 
+def load_meta(path):
+    """Per-execution records written by the harness; a harness that died leaves a truncated last line."""
+    out = []
+    if os.path.exists(path):
+        for l in open(path):
+            try:
+                out.append(json.loads(l))
+            except ValueError:
+                pass
+    return out
+
+
 def collect(ctx, exe, mode, sc, arg, kind, executions, timeout=900):
     base = os.path.join(ctx.scratch, "%s.%s" % (sc["name"], kind))
     scf = base + ".scn"
@@ -217,7 +229,7 @@ def collect(ctx, exe, mode, sc, arg, kind, executions, timeout=900):
         exs.append([{"e": "Crash", "rc": str(rc), "stderr": err[-300:]}])
     for e in exs:
         executions.append((sc["name"], kind, e))
-    return [json.loads(l) for l in open(meta)] if os.path.exists(meta) else []
+    return load_meta(meta)
 
 
 def sched_of(labels):
